@@ -162,7 +162,7 @@ func buildPlan(id string, pinned map[string]string, tier string) *Plan {
 			"option execute-as-range (slices of points): parallel.Execute(n, work) is executed as work(0, n); the partition of 0..n is the C10 contract of Execute, the independence of the iterations of the closure (no data race, no dependence on order or grouping) is assumed; sync/atomic additions are executed as plain read-modify-writes", "point encoders: PutElement is an opaque call that overwrites the result array (what it writes is its C08 contract); IsZero and LexicographicallyLargest of the coordinates are captured at the call sites", "IsInSubGroup is an assumed pure predicate (exactness of the subgroup test is number theory); IsOnCurve is used through its C02 contract",
 			"Sqrt returns a square root or nil (C01 contract of Sqrt is not yet proved: assumed at this layer)"}
 		p.NotCovered = []string{"G2 decoders over an extension field: the sign selection of the recovered Y and the value Y^2 = X^3 + b' are not stated (the extension-field methods are opaque calls: the clauses say that Legendre and Sqrt were applied to the same YSquared object and that Legendre != -1)",
-			"the round trip Bytes/SetBytes as a theorem (encoders and decoders are each under contract; their composition needs the codec of the coordinates, C08, and that the flag bits do not collide with the bits of X: arithmetic on the modulus, not stated); the encoders of secp256k1; streaming Encoder / Decoder: the reflection fallback, the byte counters of the slice cases and the length prefixes are not under contract; of the slices-of-points cases of the decoder, that the loop of the recovery closure visits every index of the range it is handed is not stated (what every iteration it makes completes is)",
+			"the round trip Bytes/SetBytes as a theorem (encoders and decoders are each under contract; their composition needs the codec of the coordinates, C08, and that the flag bits do not collide with the bits of X: arithmetic on the modulus, not stated); streaming Encoder / Decoder: the reflection fallback, the byte counters of the slice cases and the length prefixes are not under contract; of the slices-of-points cases of the decoder, that the loop of the recovery closure visits every index of the range it is handed is not stated (what every iteration it makes completes is)",
 			"twisted Edwards decoder: the sign selection and the value of x are not stated (acceptance implies a canonical y and an existing square root), the format has no subgroup test"}
 		p.Note = "G2Affine.setBytes of the 7 curves with a G2 decoder: same acceptance-implies-check clauses with all 2k (raw) / k (compressed) base-field coordinates decoded canonically (k = extension degree), the Legendre test and the square root applied to the same value. G1Affine.setBytes / unsafeSetCompressedBytes of every curve with the generated decoder: a nil error is returned only if the flag pattern is valid, the coordinates decoded canonically, infinity encodings are all-zero (every payload byte of the compressed, resp. raw, length is zero: stated over the input bytes), an uncompressed point passed the subgroup test or (when disabled) the on-curve test, a compressed point has Y = +-sqrt(X^3+b) with the sign selected by the flag and passed the subgroup test when enabled; byte counts match; short buffers give errors (no panic: all slice bounds are obligations). Streaming codecs, one contract variant per dynamic type of the value (Decoder.Decode: *[][]uint64, *[]uint64, *fr/fp.Element, *[]fr/fp.Element, *[][]fr.Element, *[][][]fr.Element, *G1Affine, *G2Affine, *[]G1Affine, *[]G2Affine; Encoder.encode / encodeRaw: the corresponding values and []G1Affine / []G2Affine): nil is returned only if every read / write and every element or point codec that was called returned no error (no error of an earlier item is overwritten by a later one), and a point is written as exactly the bytes its own Bytes / RawBytes returned. Slices of points (Decode of *[]G1Affine / *[]G2Affine, the closure handed to parallel.Execute executed as one range): every iteration of the recovery closure completes the point it is at - a compressed point goes through unsafeComputeY with the decoder's own subgroup flag, any other point through IsInSubGroup when the flag is set - and every failure is counted in the counter the function tests before returning nil. Twisted Edwards PointAffine.SetBytes (8 packages): total, refuses short buffers, accepts only if the y-coordinate was decoded canonically and the square root defining x exists. GT decoders (E12 / E24 / E6.SetBytes of the 7 pairing curves): accept only buffers of SizeOfGT bytes all of whose coordinates were decoded by the strict field decoder from one-element windows (the layout of the windows is not stated). Point encoders Bytes / RawBytes of G1 and G2 (9 curve packages), with the layout stated from the format (X then Y; a coordinate as its base-field components in descending order: A1 then A0, B1.A1 ... B0.A0; one big-endian field element per window of fp.Bytes bytes): the point at infinity is the flag byte followed by zeros and nothing else is written; otherwise every window receives exactly the component the format assigns to it, exactly once, and the first byte is the codec's first byte with the flag or-ed in (the 'largest' flag exactly when LexicographicallyLargest reported true for Y)."
 		return p
@@ -343,7 +343,7 @@ func buildPlan(id string, pinned map[string]string, tier string) *Plan {
 			"scalar multiplications, point addition, on-curve tests, HashToInt and the hash object are opaque calls: their arguments and results are captured at the call site; setter-style methods write only their receiver; chained methods return their receiver",
 			"Element.BigInt / SetBigInt are the (uninterpreted) bijection between ring elements and integers at the ring layer"}
 		p.NotCovered = []string{"completeness (every honest signature verifies): needs the group law over scalar multiplication (C03), not under contract",
-			"GenerateKey, nonce derivation (the nonce is whatever randFieldElement returned), the recovery id computed by SignForRecover, public-key recovery beyond the x-coordinate of the commitment, the layout of the bytes EdDSA Sign returns (padding of s, Bytes of the signature) and its nonce derivation (BLAKE2b: an opaque call), the EdDSA key encoders and the round trip of keys as a theorem (the ECDSA key encoders Bytes are under contract: the point's own encoding followed by the scalar bytes), the signature.Signer interfaces: not under contract",
+			"GenerateKey, nonce derivation (the nonce is whatever randFieldElement returned), the recovery id computed by SignForRecover, public-key recovery beyond the x-coordinate of the commitment, the layout of the bytes EdDSA Sign returns (padding of s, Bytes of the signature) and its nonce derivation (BLAKE2b: an opaque call), the round trip of keys as a theorem (the key encoders Bytes of both schemes and the EdDSA signature encoder are under contract: the point's own encoding followed by the remaining fields, byte for byte), the signature.Signer interfaces: not under contract",
 			"EdDSA Verify: the byte encodings of the coordinates that are hashed are the results of opaque Bytes() calls on R.X, R.Y, A.X, A.Y (which coordinate, in which order, is under contract; the encoding itself is the C08 contract of Bytes); the curve order is the value returned by GetEdwardsCurve (not compared with a pinned constant)"}
 		p.Note = "ECDSA: Signature.SetBytes accepts exactly the 2*sizeFr-byte strings with 0 < r, s < n (both directions) and stores them unchanged; Verify refuses (false) on every decoding error, and on acceptance of the encoding returns exactly [ (x(U) mod n) == r ] for the U produced by the joint scalar multiplication called on the public key with u1 = m*s^-1 mod n and u2 = r*s^-1 mod n, m = HashToInt(...) applied to the message itself when no hash is given and to the slice the hash returned otherwise (the textbook equation with the scalar multiplication opaque); Sign (SignForRecover + Sign on the 3 curves with recovery) returns a signature only if r = x(P) mod n != 0 for P the base-point multiple of the drawn nonce k, s = k^-1 (m + r d) mod n != 0 with d the big-endian integer of the private key and m = HashToInt of the message or of the digest, 0 < r, s < n, and the bytes returned are those of (r, s); recoverP accepts only 0 < r < n and sets x = r + n*bit1(v). EdDSA: Signature.SetBytes accepts only strings of 2*sizeFr bytes with 0 < y(R) < q after clearing the sign bit (mask recomputed from the pinned modulus), 0 < S < order, and R decoded by the point decoder and on the curve; Verify requires a hash, the key on the curve, decodes the signature through that contract, and returns exactly the comparison of [cofactor][S]Base with [cofactor](R + [H]A) computed by the (opaque) point operations in that order on those operands, both results tested on the curve. Key decoders of both schemes (PublicKey.SetBytes, PrivateKey.SetBytes): total on every buffer (crypto/subtle's length requirement is an obligation), refuse exactly the buffers shorter than the key, accept only if the point decoder accepted the leading bytes (EdDSA: and the point is on the curve), report the size of the key as the bytes consumed, and copy the secret scalar (EdDSA: and the randomness) from the following bytes unchanged. EdDSA Sign: R = blind*Base with blind read from the first sizeFr bytes of the BLAKE2b-512 digest and R on the curve; H(R, A, M) over exactly the encodings of R.X, R.Y, A.X, A.Y and the message in this order after a Reset; the value reduced into the signature is (hram*scalar + blind) mod Order with scalar read from privKey.scalar (the order is positive: assumed contract of GetEdwardsCurve). EdDSA Verify hashes, after a Reset, exactly the encodings of R.X, R.Y, A.X, A.Y and then the message, in this order (five writes, checked before every Write), takes the digest after exactly these writes and uses that digest - and nothing else - as the scalar that multiplies the public key."
 		return p
